@@ -8,6 +8,7 @@ import (
 	"fmt"
 	"os"
 	"testing"
+	"time"
 )
 
 type verifJob struct {
@@ -70,7 +71,16 @@ func TestVerifNative(t *testing.T) {
 	}
 	var out []verifJobResult
 	for _, j := range jobs {
-		out = append(out, verifRunJob(j))
+		// a job that blocks (e.g. a mutated tree that no longer delivers a
+		// packet the harness waits for) must not hang the whole run
+		ch := make(chan verifJobResult, 1)
+		go func(j verifJob) { ch <- verifRunJob(j) }(j)
+		select {
+		case r := <-ch:
+			out = append(out, r)
+		case <-time.After(20 * time.Second):
+			out = append(out, verifJobResult{ID: j.ID, End: "TIMEOUT", Fails: append([]string{}, verifFails...)})
+		}
 	}
 	ob, _ := json.Marshal(out)
 	if err := os.WriteFile(op, ob, 0o644); err != nil {
